@@ -50,9 +50,7 @@ def ruleLt (p : PassT) (a b : Nat) : Bool :=
 
 /-- insertion sort of a state's rule list (`qsort(…, cmpRuleEntry)` at load time; the keys are distinct per rule) -/
 def sortRules (p : PassT) (rs : List Nat) : List Nat :=
-  rs.foldl (fun acc r =>
-    let (lo, hi) := acc.span (fun x => ruleLt p x r)
-    lo ++ r :: hi) []
+  rs.foldl (fun acc r => acc.takeWhile (fun x => ruleLt p x r) ++ r :: acc.dropWhile (fun x => ruleLt p x r)) []
 
 /-- the merge of `accumulate_rules`: two lists in precedence order are merged (equal entries once) into at most `cap`
 output entries -/
